@@ -724,6 +724,26 @@ MiniEngine sched_engine() {
     e.gen = sched_gen;
     e.run = sched_run;
     e.shrinks = sched_shrinks;
+    e.summary = [](const J& c) {
+        J s = J::obj();
+        auto& p = c.at("plan");
+        s.set("policies", p.at("policies"));
+        s.set("classes", p.at("world").geti("ncls", 0));
+        s.set("records", J((unsigned long long)p.at("recs").a.size()));
+        s.set("setup_events", p.geti("setup_events", 0));
+        s.set("updater_events", J((long long)p.at("events").a.size() - p.geti("setup_events", 0)));
+        J t = J::arr();
+        for (auto& task : c.at("tasks").a) {
+            J ops = J::arr();
+            for (auto& op : task.a)
+                ops.push(op.gets("op", ""));
+            t.push(ops);
+        }
+        s.set("caller_tasks", t);
+        s.set("sched_seed", J((unsigned long long)c.getu("sched_seed", 0)));
+        s.set("hook_yields", c.geti("hook_yields", 0));
+        return s;
+    };
     return e;
 }
 
